@@ -94,7 +94,7 @@ class C08(Prop):
     floors = {'quick': (200, 60), 'thorough': (4000, 1000)}
     must_reach = ['discrete_time_interpreter:DiscreteTimeInterpreter.time_unit_transformer']
     quick_cases = 1500
-    thorough_cases = 200000
+    thorough_cases = 800000
     shrink_data = False
     case_timeout = 8
 
